@@ -539,14 +539,21 @@ class Generator(TreeListener):
                     # expression should have been encountered before this
                     # iteration of the loop. The assert statement below covers
                     # this.
-                    delay_expr_args = free_vars + all_args[: len(indexed_symbols_full) + 1]
+                    # Symbols that only occur in the delayed expression are not
+                    # part of the loop body anymore (the delay call was
+                    # replaced by the delay symbol), so they have to be
+                    # collected from the delayed expression itself.
+                    delay_free_vars = [
+                        e for e in ca.symvar(delay_symbol.expr) if e.name() not in arg_names
+                    ]
+                    delay_expr_args = delay_free_vars + all_args[: len(indexed_symbols_full) + 1]
                     assert set(ca.symvar(delay_symbol.expr)).issubset(delay_expr_args)
 
                     f_delay_expr = ca.Function("delay_expr", delay_expr_args, [delay_symbol.expr])
                     f_delay_map = f_delay_expr.map(
-                        "map", self.map_mode, len(f.values), list(range(len(free_vars))), []
+                        "map", self.map_mode, len(f.values), list(range(len(delay_free_vars))), []
                     )
-                    [res] = f_delay_map.call(free_vars + [f.values] + indexed_symbols_full)
+                    [res] = f_delay_map.call(delay_free_vars + [f.values] + indexed_symbols_full)
                     res = res.T
 
                     # Make the symbol with the appropriate size, and replace the old symbol with the new one.
